@@ -120,13 +120,15 @@ def _make_bases():
     A, Bb, C = arr(1, 2, I, I(1), I(1)), arr(1, 2, I, I(2), I(2)), arr(1, 2, I, I(3), I(3))
     WT = arr(1, 2, S, S('p'), S('p'))            # other base type
     WB = arr(1, 3, I, I(1), I(1), I(1))          # other bounds: ARRAY[1:3] is not ARRAY[1:2] (13.3.2)
+    WS = arr(1, 2, SDT.NUMBER, I(1), I(1))       # base type NUMBER, of which INTEGER is a specialisation: an ARRAY OF NUMBER is not an ARRAY OF INTEGER
     nb = Base('NESTED', ADT.ARRAY(1, 2, I), None, [
         ('a', (A, 'a', None)), ('b', (Bb, 'b', None)), ('a2', (A, 'a', None)), ('c', (C, 'c', None)),
         ('w', (I(1), None, 'wrong-type')),
         ('wt', (WT, None, 'nested-array-of-other-base-type')),
         ('wb', (WB, None, 'nested-array-with-other-bounds')),
+        ('ws', (WS, None, 'nested-array-of-a-generalisation-of-the-base-type')),
         ('none', (None, None, 'indeterminate'))])
-    nb.labels = {id(A): 'a', id(Bb): 'b', id(C): 'c', id(WT): 'wt', id(WB): 'wb'}
+    nb.labels = {id(A): 'a', id(Bb): 'b', id(C): 'c', id(WT): 'wt', id(WB): 'wb', id(WS): 'ws'}
     bases['NESTED'] = nb
     return bases
 
